@@ -5,12 +5,16 @@ from ..gen import bytes_lit, lit, bi, raw, call, fundef, arg, render, str_lit, e
 from ..corr import Case, monitor, obs
 
 FS = {"가.pbhhg": "ㄴ ㄷ ㄷㅎㄷ".encode(), "나/다.pbhhg": "ㄱㅇㄱ ㄴ ㄷㅎㄷ ㅎ".encode(), "라.pbhhg": "ㄴ ㄱ ㄴㄴㅎㄷ".encode(),
-      "마.pbhhg": "ㄱ ㅂㅎㄴ".encode(), "바.pbhhg": "ㄴ ㄱㅇ ㅎㄱ ㄷㅎㄷ ㅎ ㅎㄱ".encode()}
+      "마.pbhhg": "ㄱ ㅂㅎㄴ".encode(), "바.pbhhg": "ㄴ ㄱㅇ ㅎㄱ ㄷㅎㄷ ㅎ ㅎㄱ".encode(),
+      # modules whose value is a *container holding an I/O action* (kept alive by the module cache across evaluations: printing
+      # it executes the action each time — seeded change S20l memoised the printed text on the container object)
+      "사.pbhhg": "ㄹㅎㄱ ㅁㄹㅎㄴ".encode(), "자.pbhhg": "ㄱ (ㄹㅎㄱ) ㄴ (ㄹㅎㄱ ㅁㄹㅎㄴ) ㅅㅈㅎㅁ".encode()}
 SPECIAL = [
     "ㄱ ㅂㅎㄴ", "ㄴ ㄷ ㅂㅎㄷ", "ㄷ (ㄴ ㄷ ㅂㅎㄷ) ㅎㄴ", "ㄹ ㅂㅎㄴ", "ㅁ ㅂㅎㄴ", "ㅂ ㅂㅎㄴ".replace("ㅂ ㅂㅎㄴ", "ㅂㄱ ㅂㅎㄴ"), "(ㄹ ㅂㅎㄴ) (ㄱㅇㄱ ㅎ) ㅅㄷㅎㄷ",
     "ㄴ ㄱㅇ ㅎㄱ ㄷㅎㄷ ㅎ ㅎㄱ",                      # hits the evaluator's stack limit (aborts mid-evaluation)
     "(ㄱ ㅂㅎㄴ) (ㄱ ㅂㅎㄴ) ㄴㅎㄷ", "ㄹㅎㄱ (ㄱㅇㄱ ㅈㄹㅎㄴ ㅎ) ㄱㄹㅎㄷ", "ㄱ ㄴ ㄷ ㄹ ㅅㅈㅎㅁ", "(ㅂ ㅅ ㅂㅎㄷ)", "(ㅂ ㅂㄷ ㄱ ㅂㅎㄹ) (ㅂ ㅂㄷ ㄱ ㅂㅎㄹ) ㄴㅎㄷ",
     "ㄴ ㄱ ㄴㄴㅎㄷ", "ㅈㅈㅈㅈ ㅎㄱ", "ㄱ ㅎㄴ",
+    "ㅅ ㅂㅎㄴ", "ㅈ ㅂㅎㄴ", "(ㅅ ㅂㅎㄴ) (ㅅ ㅂㅎㄴ) ㅁㄹㅎㄷ", "ㄱ (ㅅ ㅂㅎㄴ) ㅎㄴ", "(ㅅ ㅂㅎㄴ) ㅈㄷㅎㄴ",
 ]
 
 
